@@ -154,7 +154,7 @@ Proposed(e) ==
       [] e.ev = "ChangeConfig" -> {[Cur EXCEPT !.cm = e.conf]}
       [] e.ev = "Crash" -> {CrashW}
       [] e.ev = "Restart" -> IF ~alive THEN {RestartW} ELSE {}
-      [] e.ev = "Quiesce" -> {Cur}
+      [] e.ev \in {"Quiesce", "ScheduleEnd"} -> {Cur}
       [] OTHER -> {}
 
 (* ---------------------------------------------------------------- re-synchronisation on the log *)
@@ -174,29 +174,136 @@ FromLog(e) ==
                         ELSE IF e.ev = "DeliverPod" /\ e.op # 0 THEN [ctr EXCEPT !.op = e.op + 1]
                         ELSE IF e.ev = "CreatePod" THEN [ctr EXCEPT !.uid = ctr.uid + 1] ELSE ctr]
 
-(* ---------------------------------------------------------------- properties (filled by Props module section below) *)
-\* a pod is "live" if it exists and has not finished
+(* ---------------------------------------------------------------- properties *)
+\* Predicates are written from the property statements only; they read the observed pre-state (the
+\* variables), the event e and the observed post-state w.  ghost carries the little history they need.
 Live(ps) == {n \in DOMAIN ps : ps[n].phase # "Done"}
 LiveBound(ps) == {n \in Live(ps) : ps[n].node # "" /\ Len(ps[n].ann) > 0}
+PoolCount(m, pl) == Cardinality({ip \in DOMAIN m : m[ip].key.pool = pl})
+Max2(a, b) == IF a > b THEN a ELSE b
+\* the pod identity a pod key speaks of is not held by a live pod any more
+\* (a live pod holds the IP if it was bound with it, or the allocation carries its uid: filter/bind in progress)
+Gone(ps, k, uid, ip) == ~(k.pod \in DOMAIN ps /\ ps[k.pod].phase # "Done" /\
+                          (uid = ps[k.pod].uid \/ ip \in ToSet(ps[k.pod].ann)))
+\* an immutable allocation may be released: app gone / scaled below the pod / (deployment) more IPs than replicas
+ImmReleasable(m, k, S, D) ==
+    IF k.kind = "sts" THEN k.app \notin DOMAIN S \/ S[k.app] < IndexOf(k.pod) + 1
+    ELSE IF k.kind = "dp" THEN (IF k.app \in DOMAIN D THEN D[k.app] ELSE 0) = 0 \/
+                               Cardinality({ip \in DOMAIN m : HasPrefix(m[ip].key, KeyPrefixOf(k))}) > (IF k.app \in DOMAIN D THEN D[k.app] ELSE 0)
+    ELSE TRUE
+G0 == [bindown |-> Emp, filt |-> Emp, sizeAt |-> Emp, everRel |-> {}, apiops |-> {}]
+GhostNext(e, w) ==
+    LET g == ghost
+        g1 == IF e.ev = "StartBind" THEN [g EXCEPT !.bindown = Put(g.bindown, e.op, KeyIPs(mem, KeyOf(pods[e.pod])))] ELSE g
+        g2 == IF e.ev = "StartFilter"
+                THEN [g1 EXCEPT !.filt = Put(g1.filt, e.pod, [own |-> KeyIPs(mem, KeyOf(pods[e.pod])),
+                                                              reserve |-> KeyIPs(mem, PoolPrefix(pods[e.pod]))])]
+                \* the segment of a filter that ends with the key lookup is the one that reads the Pool object
+                ELSE IF e.ev = "Step" /\ e.typ = "filter" /\ e.call = "ByKeyAndIPRanges" /\ e.args.key.pool \in DOMAIN poolobj
+                  THEN [g1 EXCEPT !.sizeAt = Put(g1.sizeAt, e.op, poolobj[e.args.key.pool].size)]
+                ELSE g1
+        g3 == IF e.ev = "StartPoolUpsert" THEN [g2 EXCEPT !.sizeAt = Put(g2.sizeAt, e.op, e.size)] ELSE g2
+        g4 == IF e.ev = "StartApiRelease" THEN [g3 EXCEPT !.apiops = g3.apiops \cup {e.op}] ELSE g3
+        rel == {w.mem[ip].key : ip \in {x \in DOMAIN w.mem : ~IsFree(w.mem[x]) /\ w.mem[x].key.pod # "" /\
+                                                              ImmReleasable(w.mem, w.mem[x].key, w.sts, w.dp)}}
+    IN [g4 EXCEPT !.everRel = (g4.everRel \cup rel) \ (IF e.ev = "CreatePod" THEN {k \in g4.everRel : k.pod = e.pod} ELSE {})]
 
+RetOk(e) == Has(e, "ret") /\ Has(e.ret, "ok") /\ e.ret.ok
+RetFail(e) == Has(e, "ret") /\ Has(e.ret, "ok") /\ ~e.ret.ok
+RetRes(e) == IF Has(e, "ret") /\ Has(e.ret, "res") THEN e.ret.res ELSE ""
 StepViolations(e, w) ==
     LET V(name, bad) == IF bad THEN {[prop |-> name, line |-> l, trace |-> tid, ev |-> e.ev,
                                       call |-> IF Has(e, "call") THEN e.call ELSE "", typ |-> IF Has(e, "typ") THEN e.typ ELSE ""]} ELSE {}
-        P == w.pods IN
-    \* C01: no two live pods carry the same IP in their binding annotation
+        P == w.pods
+        isStep == e.ev = "Step"
+        bindOk == isStep /\ e.call = "binding" /\ RetRes(e) = "ok"
+        bp == IF bindOk THEN P[e.args.pod] ELSE NoPod            \* the pod just bound (post-state object)
+        ann == IF bindOk THEN ToSet(e.args.ann) ELSE {}
+        node == IF bindOk THEN e.args.node ELSE ""
+        common == (DOMAIN mem) \cap (DOMAIN w.mem)
+        freed == {ip \in common : ~IsFree(mem[ip]) /\ IsFree(w.mem[ip])}
+        rekeyed == {ip \in common : ~IsFree(mem[ip]) /\ ~IsFree(w.mem[ip]) /\ mem[ip].key # w.mem[ip].key}
+        byApi == isStep /\ e.op \in ghost.apiops
+        unassign == isStep /\ e.call = "UnAssignIP"
+    IN
+    (* ---------------- C01 *)
        V("LiveAnnotationsDisjoint",
          \E p \in Live(P), q \in Live(P) : p # q /\ ToSet(P[p].ann) \cap ToSet(P[q].ann) # {})
-    \* C04: the IP of a live bound pod stays keyed to it (while it is configured)
+    \cup V("BoundIPIsKeyedToPod",           \* what is written to the pod is allocated to that pod
+           bindOk /\ \E ip \in ann : ip \notin DOMAIN mem \/ mem[ip].key # KeyOf(bp))
+    (* ---------------- C02 *)
+    \cup V("StickyBind",                    \* a pod that still holds (reserved) IPs is never given a different, fresh one
+           isStep /\ e.typ = "bind" /\ e.call = "AllocateMulti" /\ RetOk(e) /\
+           LET held == KeyIPs(mem, e.args.key) IN
+           IF Len(e.args.ranges) = 0 THEN held # {}
+           ELSE \E i \in 1..Len(e.args.ranges) : ToSet(e.args.ranges[i]) \cap held # {})
+    \cup V("ReserveBeforeFresh",            \* a deployment/pool replacement takes a reserved IP of its app, not a fresh one
+           isStep /\ e.typ = "bind" /\ e.call = "AllocateMulti" /\ RetOk(e) /\ e.args.key.kind = "dp" /\ e.args.attr.policy # 0 /\
+           e.args.key.pod \in DOMAIN ghost.filt /\
+           \E ip2 \in ghost.filt[e.args.key.pod].reserve :
+               ip2 \in DOMAIN mem /\ mem[ip2].key = KeyPrefixOf(e.args.key) /\ e.args.subnet \in SubnetsOf(pools, ip2))
+    (* ---------------- C03 *)
+    \cup V("ReleaseJustified",
+           e.ev \notin {"Crash", "Restart"} /\ ~byApi /\ ~Has(e, "crashed") /\
+           ~(isStep /\ e.call = "ConfigurePool") /\ e.ev # "DeliverFev" /\
+           \E ip \in freed :
+              LET k == mem[ip].key  pl == mem[ip].policy IN
+              \/ k.pod = ""                                             \* reserved under an app / pool prefix: API only
+              \/ ~Gone(pods, k, mem[ip].uid, ip)                          \* still held by a live pod
+              \/ pl = 2 \/ k.pool # ""                                  \* never / pool: API only
+              \/ pl = 1 /\ Supports(k, 1) /\ ~(k \in ghost.everRel \/ ImmReleasable(mem, k, sts, dp)))
+    \cup V("NoLeakAtQuiescence",
+           e.ev = "Quiesce" /\ w.alive /\
+           \E ip \in DOMAIN w.mem :
+              LET m == w.mem[ip]  k == m.key IN
+              /\ ~IsFree(m) /\ k.pod # "" /\ ~m.lab /\ Gone(P, k, m.uid, ip)
+              /\ \/ m.policy = 0 /\ k.pool = ""
+                 \/ m.policy = 1 /\ k.pool = "" /\ Supports(k, 1) /\ ImmReleasable(w.mem, k, w.sts, w.dp)
+                 \/ m.policy = 1 /\ ~Supports(k, 1))
+    (* ---------------- C04 *)
     \cup V("LiveKeepsIP",
-           w.alive /\ \E p \in LiveBound(P) : \E ip \in ToSet(P[p].ann) :
-               ip \in DOMAIN w.mem /\ w.mem[ip].key # KeyOf(P[p]) /\
-               \* it was keyed to it before this step: the step took it away
-               ip \in DOMAIN mem /\ mem[ip].key = KeyOf(P[p]) /\ p \in DOMAIN pods /\ pods[p].uid = P[p].uid)
-    \* C05: memory and store agree whenever no IPAM method is in flight (every line is such a moment)
+           w.alive /\ alive /\ \E p \in LiveBound(P) : \E ip \in ToSet(P[p].ann) :
+               /\ p \in DOMAIN pods /\ pods[p].uid = P[p].uid /\ ip \in ToSet(pods[p].ann)
+               /\ ip \in common /\ mem[ip].key = KeyOf(P[p]) /\ w.mem[ip].key # KeyOf(P[p]))
+    \cup V("NoUnassignWhileLive",
+           unassign /\ \E p \in LiveBound(pods) : e.args.ip \in ToSet(pods[p].ann) /\
+                         e.args.ip \in DOMAIN mem /\ mem[e.args.ip].key = KeyOf(pods[p]))
+    (* ---------------- C05 *)
     \cup V("MemStoreAgree", w.alive /\ ~MemStoreAgreeExcept(w.mem, w.store, {w.fev[i].ip : i \in 1..Len(w.fev)}))
+    (* ---------------- C06 *)
+    \cup V("Routable", bindOk /\ \E ip \in ann : ip \notin ConfIPs(pools) \/ NodeSub[node] \notin SubnetsOf(pools, ip))
+    (* ---------------- C07 *)
+    \cup V("PoolCap",
+           w.alive /\ alive /\ \E pl \in DOMAIN poolobj :
+               /\ PoolCount(w.mem, pl) > PoolCount(mem, pl)
+               /\ PoolCount(w.mem, pl) > Max2(poolobj[pl].size,
+                                              IF isStep /\ e.op \in DOMAIN ghost.sizeAt THEN ghost.sizeAt[e.op] ELSE 0))
+    (* ---------------- C08 *)
+    \cup V("MultiInRangeOrdered",
+           bindOk /\ Len(bp.ranges) > 0 /\
+           ~( /\ Len(e.args.ann) = Len(bp.ranges)
+              /\ \A i \in 1..Len(e.args.ann) : e.args.ann[i] \in bp.ranges[i] /\
+                     \A j \in 1..Len(e.args.ann) : i # j => e.args.ann[i] # e.args.ann[j] ))
+    \cup V("MultiAllOrNothing",
+           isStep /\ e.call = "AllocateMulti" /\ RetFail(e) /\ (Strip(w.mem) # Strip(mem) \/ Strip(w.store) # Strip(store)))
+    (* ---------------- C09 *)
+    \cup V("NoReservedOrUnconfiguredHandedOut",
+           bindOk /\ \E ip \in ann : ip \notin ConfIPs(pools) \/ (ip \in DOMAIN store /\ store[ip].lab))
+    \cup V("ReservedNotAllocated",
+           w.alive /\ \E ip \in (DOMAIN w.store) \cap (DOMAIN w.mem) : w.store[ip].lab /\ ~IsFree(w.mem[ip]) /\ ~w.mem[ip].lab)
+    (* ---------------- C10 *)
+    \cup V("CloudSingleNode",
+           isStep /\ e.call = "AssignIP" /\ RetOk(e) /\ e.args.ip \in DOMAIN cloud /\ cloud[e.args.ip] # e.args.node)
+    \cup V("LiveAssignedToOwnNode",
+           CloudOn /\ bindOk /\ \E ip \in ann : ip \notin DOMAIN w.cloud \/ w.cloud[ip] # node)
+    \cup V("UnassignBeforeHandover",
+           CloudOn /\ e.ev \notin {"Crash", "Restart"} /\ \E ip \in freed \cup rekeyed : ip \in DOMAIN cloud)
+    (* ---------------- C18 *)
+    \cup V("NoPanic", e.ev = "Panic")
+    \cup V("NoHang", e.ev = "Hang")
 
 Init ==
-    /\ l = 1 /\ tid = 0 /\ lastlog = Emp /\ viol = {} /\ div = {} /\ ghost = Emp
+    /\ l = 1 /\ tid = 0 /\ lastlog = Emp /\ viol = {} /\ div = {} /\ ghost = G0
     /\ stats = [events |-> 0, traces |-> 0, conform |-> 0, skipped |-> 0]
     /\ mem = Emp /\ store = Emp /\ pools = Emp /\ clock = 100 /\ pods = Emp /\ lpods = Emp /\ pevq = <<>> /\ work = <<>>
     /\ sts = Emp /\ dp = Emp /\ poolobj = Emp /\ cm = 1 /\ cloud = Emp /\ ops = Emp /\ podlock = Emp /\ dplock = Emp
@@ -216,7 +323,7 @@ Reset(e) ==
     /\ ops' = Emp /\ podlock' = Emp /\ dplock' = Emp /\ nscache' = Emp /\ fev' = <<>> /\ alive' = TRUE
     /\ loaded' = e.cm /\ filtered' = Emp /\ ctr' = [uid |-> 1, op |-> 1, inc |-> Emp]
     /\ lastlog' = [k \in StateKeys |-> e[k]]
-    /\ viol' = viol /\ div' = div /\ ghost' = Emp
+    /\ viol' = viol /\ div' = div /\ ghost' = G0
     /\ stats' = [stats EXCEPT !.traces = @ + 1, !.events = @ + 1]
 
 Skippable(e) ==      \* lines of operations the model dropped after a divergence, or cut by a crash
@@ -226,19 +333,19 @@ Skippable(e) ==      \* lines of operations the model dropped after a divergence
 
 Event(e) ==
     LET good == {w \in Proposed(e) : Same(w, e)} IN
-    /\ tid' = tid /\ UNCHANGED cfgVars /\ UpdLast(e) /\ ghost' = ghost
+    /\ tid' = tid /\ UNCHANGED cfgVars /\ UpdLast(e)
     /\ IF Skippable(e)
          THEN LET w == FromLog(e) IN
-              /\ SetWorld(w) /\ div' = div
+              /\ SetWorld(w) /\ div' = div /\ ghost' = GhostNext(e, w)
               /\ viol' = viol \cup StepViolations(e, w)
               /\ stats' = [stats EXCEPT !.events = @ + 1, !.skipped = @ + 1]
          ELSE IF good # {}
            THEN \E w \in good :
-                  /\ SetWorld(w) /\ div' = div
+                  /\ SetWorld(w) /\ div' = div /\ ghost' = GhostNext(e, w)
                   /\ viol' = viol \cup StepViolations(e, w)
                   /\ stats' = [stats EXCEPT !.events = @ + 1, !.conform = @ + 1]
            ELSE LET w == FromLog(e) IN
-                /\ SetWorld(w)
+                /\ SetWorld(w) /\ ghost' = GhostNext(e, w)
                 /\ div' = div \cup {[line |-> l, trace |-> tid, ev |-> e.ev, call |-> IF Has(e, "call") THEN e.call ELSE "",
                                      typ |-> IF Has(e, "typ") THEN e.typ ELSE "",
                                      why |-> IF Proposed(e) = {} THEN {"noproposal"} ELSE UNION {Diff(x, e) : x \in Proposed(e)},
